@@ -1057,7 +1057,7 @@ func c15CLIRun(c *core.Case, o *core.Outcome) {
 		want[k%2][kv[0]] = kv[1]
 	}
 	y := "scenario: cliPlan\nlimits:\n  max-duration: 10s\n  concurrency: 2\n  max-iterations: 0\n  ignore-dropped: true\ndefault:\n  distribution: none\n  jitter: 0\nstages:\n" +
-		"- duration: 250ms\n  mode: constant\n  rate: 2/20ms\n  parameters:\n    VERIF_CLI_STAGE: one\n" + stage[0].String() +
+		"- duration: 250ms\n  mode: constant\n  rate: 6/20ms\n  parameters:\n    VERIF_CLI_STAGE: one\n" + stage[0].String() +
 		"- duration: 250ms\n  mode: users\n  parameters:\n    VERIF_CLI_STAGE: two\n" + stage[1].String()
 	path, err := engine.TempYAML(y)
 	if err != nil {
@@ -1091,7 +1091,9 @@ func c15CLIRun(c *core.Case, o *core.Outcome) {
 					}
 				}
 			}
-			time.Sleep(2 * time.Millisecond)
+			// (slow enough for the first stage's ticks of six to find both workers busy: the plan says ignore-dropped: true,
+			// so the dropped requests do not fail the run)
+			time.Sleep(25 * time.Millisecond)
 		}
 	}
 	quiet := slog.New(slog.NewTextHandler(io.Discard, nil))
@@ -1099,7 +1101,7 @@ func c15CLIRun(c *core.Case, o *core.Outcome) {
 	o.Events = reads.Load()
 	desc := fmt.Sprintf("run file <plan with %d parameters whose values contain $, %%, braces or backslashes>", len(vals))
 	if rerr != nil {
-		o.Violate("clirun-error:"+desc, "the plan was not run: %v (%s)", rerr, desc)
+		o.Violate("clirun-error:"+desc, "the command returned %v; the plan's limits say ignore-dropped: true and no iteration fails (%s)", rerr, desc)
 		return
 	}
 	mu.Lock()
@@ -1114,7 +1116,7 @@ func c15CLIRun(c *core.Case, o *core.Outcome) {
 			return
 		}
 	}
-	if reads.Load() < 20 {
+	if reads.Load() < 8 {
 		o.Inconc("only %d look-ups were made (%s)", reads.Load(), desc)
 		return
 	}
